@@ -33,7 +33,7 @@ def main():
                     continue
                 name, cls = mm.group(1), mm.group(2)
                 # SMT / static / attach / engine obligations carry no class or a solver status
-                if cls in ("", "timeout", "unknown", "sat", "failed", "error") or name.startswith("static/") or name.startswith("lemma/"):
+                if cls in ("", "timeout", "unknown", "sat", "failed", "error") or name.startswith("static/") or name.startswith("lemma/") or "/witness/" in name:
                     if name not in con:
                         con.append(name)
                 else:
@@ -57,7 +57,7 @@ def main():
         fmt = lambda xs: "<br>".join("`%s`" % x for x in xs[:2]) if xs else "—"
         rows.append("| %s | %s | %s | %s |" % (sid, summ, fmt(con), fmt(bnd)))
     head = ("%d changes confirmed; %d raise a VIOLATION in the quick tier of the checks run for them. "
-            "%d are caught by a contract obligation (SMT / static / attach), %d by a bounded clause, %d by both. Not caught: %s.\n\n"
+            "%d are caught by a contract obligation (SMT / static / witness run), %d by a bounded clause, %d by both. Not caught: %s.\n\n"
             % (n, det, bycon, bybnd, both, ", ".join(missed) or "none"))
     table = head + "| id | change | contract obligations that fail (first two) | bounded clauses that fail (first two) |\n|---|---|---|---|\n" + "\n".join(rows) + "\n"
     p = os.path.join(V, "DESIGN.md")
